@@ -174,10 +174,12 @@ def cmd_digest(a):
   """Determinism self-test helper: print digests of runs idx in [lo,hi)."""
   mod = props.load(a.prop)
   directed = [] if a.no_directed else mod.directed()
-  for idx in range(a.lo, a.hi):
-    scn = scenario_for(mod, a.prop, a.seed, idx, directed)
-    res = mod.execute(scn, set(), False)
-    print(idx, res["digest"], len(res["violations"]), flush=True)
+  for rep in range(a.repeat):
+    order = range(a.lo, a.hi) if rep % 2 == 0 else range(a.hi - 1, a.lo - 1, -1)
+    for idx in order:
+      scn = scenario_for(mod, a.prop, a.seed, idx, directed)
+      res = mod.execute(scn, set(), False)
+      print(rep, idx, res["digest"], len(res["violations"]), flush=True)
   return 0
 
 
@@ -206,6 +208,7 @@ def main(argv=None):
   d.add_argument("--lo", type=int, default=0)
   d.add_argument("--hi", type=int, default=10)
   d.add_argument("--no-directed", action="store_true")
+  d.add_argument("--repeat", type=int, default=1)
   a = p.parse_args(argv)
   if a.cmd == "run":
     return cmd_run(a)
